@@ -186,6 +186,13 @@ struct Runner {
             }
             if (!ok) { emit({PRE}); continue; }
             Line after = Codec<T>::enc(obs->value());
+            if (l[0] == 10) {
+                // an Eq-equal assignment leaves the stored value untouched, subscribers or not; any other stores the assigned value
+                Line assigned(l.begin() + 1, l.end());
+                bool equal = eq(Codec<T>::dec(before), Codec<T>::dec(assigned));
+                if (equal && after != before) oracle_fail("C16: an Eq-equal assignment changed the stored value");
+                if (!equal && after != assigned) oracle_fail("C16: an assignment of a different value did not store it");
+            }
             Line out;
             if (hasRet) put(out, ret);
             out.push_back(SEP);
